@@ -16,6 +16,8 @@ History = list of JSON ops; the first op is ['seed', block, text].  Ops of the s
   ['text', i]                               style.cssText = STYLE_TEXTS[i]
 vars block: ['vset', n, v] ['vitem', n, v] ['vrm', n] ['vdel', n] ['vtext', i]
 """
+import os
+import sys
 import xml.dom
 
 import cssutils
@@ -52,7 +54,8 @@ ASSUMPTIONS = [
 ]
 FLOORS = {
     'quick': {'states': 20000, 'transitions': 200000, 'validated': 200000, 'outcomes': 20000, 'counter:table.rows': 130, 'counter:style.states_expanded': 2000, 'counter:vars.states_expanded': 20},
-    'thorough': {'states': 200000, 'transitions': 2000000, 'validated': 2000000, 'outcomes': 200000, 'counter:table.rows': 130, 'counter:style.states_expanded': 20000, 'counter:vars.states_expanded': 20},
+    'thorough': {'states': 200000, 'transitions': 2000000, 'validated': 2000000, 'outcomes': 200000, 'counter:table.rows': 130, 'counter:style.states_expanded': 20000,
+                 'counter:style-wide.states_expanded': 5000, 'counter:vars.states_expanded': 20},
 }
 
 NAMES = ['color', 'COLOR', 'c\\olor', 'top']
@@ -89,8 +92,8 @@ CONFIGS = {
         'vars': {'L': 3},
     },
     'thorough': {
-        'style': {'L': 4, 'Lc': 3, 'values': ['red', 'blue'], 'prios': ['', 'important', '!important', '!IMPORTANT'], 'full_product': False},
-        'style-wide': {'L': 3, 'Lc': 2, 'values': ['red', 'blue', '1px'], 'prios': ['', 'important', '!important', '!IMPORTANT'], 'full_product': True},
+        'style': {'L': 4, 'Lc': 2, 'values': ['red', 'blue'], 'prios': ['', 'important', '!important', '!IMPORTANT'], 'full_product': False},
+        'style-wide': {'L': 3, 'Lc': 2, 'values': ['red', 'blue', '1px'], 'prios': ['', 'important', '!IMPORTANT'], 'full_product': True},
         'vars': {'L': 3},
     },
 }
@@ -118,6 +121,7 @@ def style_ops(tier, block):
                 for p in P:
                     for nz, rp in MODES:
                         ops.append(['set', n, v, p, nz, rp])
+            ops.append(['set', n, V[0], '!important', True, True])
             for p in ('', '!important'):
                 for nz, rp in MODES[:3]:
                     ops.append(['setobj', n, V[-1], p, nz, rp])
@@ -183,16 +187,23 @@ def bounds(tier):
         'vars_texts': [t for t, _ in VARS_TEXTS],
         'vars_seeds': [VARS_TEXTS[i][0] for i in VARS_SEEDS],
         'vars_operations': len(vars_ops()),
-        'closure': 'every reachable state with <= L property entries (variables) is expanded with every operation; successors with more entries are compared but not expanded',
-        'domname_table': 'every name in cssutils.profile.knownNames and every name of cssutils.profiles.properties (deduplicated) x 2 start blocks',
-        'pruning': 'camel-case DOM names are exercised in the table only (the search uses the attributes color/top); Property-object sets use one value; '
-        'in the non-"wide" style blocks the priorities "important"/"!important" are combined with normalize=replace=True only and the value 1px enters through texts only',
+        'closure': 'every reachable state with <= L property entries (<= Lc when the block also holds a comment; <= L variables) is expanded with '
+        'EVERY operation of its block; successors beyond the cap are compared with the model but not expanded',
+        'domname_table': 'every name in cssutils.profile.knownNames and in cssutils.profiles.properties (deduplicated) x {empty block, block with duplicates of mixed priority} x {get, set, set "", del}',
+        'pruning': 'the full alphabet at L=4 has ~1.1x10^5 expandable states x ~280 operations (3x10^7 transitions), so: (1) block "style" prunes the product '
+        'name x value x priority x normalize x replace to: all four (normalize, replace) modes x priorities {"", "!IMPORTANT"} with the two values alternating '
+        '(every (literal name, value, priority) entry can still be appended and updated), "important"/"!important" with normalize=replace=True only, the value 1px '
+        'enters through texts only; block "style-wide" (thorough) takes the full product over three values at L=3; (2) blocks holding a comment are expanded only up to Lc entries; '
+        '(3) camel-case DOM names other than color/top are exercised in the table, not in the search; (4) Property-object sets use one value; '
+        '(5) the literal spelling of a stored priority (IMPORTANT vs important) is not part of the state key - no operation or observer of the alphabet reads it under the '
+        'default preferences; that it normalises to the stored priority is checked on every state',
+        'known_limits': 'hex escapes occur only in variable names (\\78); comments occur only between declarations; one block at a time (no sharing of Property objects between blocks)',
     }
     for block, cfg in CONFIGS[tier].items():
         if block == 'vars':
             out['vars_L'] = cfg['L']
             continue
-        out[block] = {'L_completed': cfg['L'], 'values': cfg['values'] + ['', None], 'priorities': cfg['prios'] + [None], 'operations_per_state': len(style_ops(tier, block))}
+        out[block] = {'L_completed': cfg['L'], 'Lc_completed': cfg['Lc'], 'values': cfg['values'] + ['', None], 'priorities': cfg['prios'] + [None], 'operations_per_state': len(style_ops(tier, block))}
     return out
 
 
@@ -578,12 +589,15 @@ def compare_style(res, V, st, sn, m, case, ok, nc, src_items):
     if gotn != expn:
         V('C10.entries', 'Property.name|not-the-normalised-literal-name', c, expn, gotn, size=size)
     # lookups
+    values = {}
     for n in PROBE_NAMES:
         for nz in (True, False):
             res.clauses['C10.lookup'] += 1
             e = m.effective(n, nz)
             exp = (tuple(e[1:]) if e else None, e[2] if e else '', e[3] if e else '')
             obs = (T(st.getProperty(n, nz)), st.getPropertyValue(n, nz), st.getPropertyPriority(n, nz))
+            if nz:
+                values[n] = obs[1]
             if obs != exp:
                 if exp[0] is not None and obs[0] is None:
                     sym = 'absent-but-present'
@@ -599,14 +613,15 @@ def compare_style(res, V, st, sn, m, case, ok, nc, src_items):
         obs = [T(p) for p in st.getProperties(n, all=True)]
         if obs != exp:
             V('C10.lookup', f'getProperties(name,all=True)|name={nameclass(n)}', dict(c, lookup=n), exp, obs, size=size)
+    # the convenience readers are judged against the method they stand for (that method is judged against the model above)
     for n in ITEM_NAMES:
         res.clauses['C10.lookup.item'] += 1
-        if st[n] != m.value(n):
-            V('C10.lookup', f'__getitem__|name={nameclass(n)}', dict(c, lookup=n), m.value(n), st[n], size=size)
+        if st[n] != values[n]:
+            V('C10.lookup', '__getitem__|differs-from-getPropertyValue', dict(c, lookup=n), values[n], st[n], size=size)
     for dom in ('color', 'top'):
         res.clauses['C10.lookup.attr'] += 1
-        if getattr(st, dom) != m.value(dom_to_css(dom)):
-            V('C10.lookup', '__getattr__|differs-from-effective-value', dict(c, lookup=dom), m.value(dom), getattr(st, dom), size=size)
+        if getattr(st, dom) != values[dom_to_css(dom)]:
+            V('C10.lookup', '__getattr__|differs-from-getPropertyValue', dict(c, lookup=dom), values[dom_to_css(dom)], getattr(st, dom), size=size)
     # names
     res.clauses['C10.names'] += 1
     names = m.names()
@@ -783,7 +798,13 @@ def _transition(res, sink, history, op, tier, ok):
     res.validated += 1
     res.clauses[pre + 'return'] += 1
     if r_real != r_model:
-        V(pre + 'return', f'{ok}|name={nc}', pub, r_model, r_real, size=size)
+        if r_model and not r_real:
+            sym = f'empty-although-present|name={nc}'
+        elif r_real and not r_model:
+            sym = f'value-although-absent|name={nc}'
+        else:
+            sym = 'not-the-effective-value'
+        V(pre + 'return', f'{ok}|{sym}', pub, r_model, r_real, size=size)
     if vb:
         good = compare_vars(res, V, real, model, case, ok, nc, src)
         key = vars_key(block, real)
@@ -819,6 +840,8 @@ def expand(batch, tier, seed):
         with guard.watchdog(900):
             if not history:
                 for block in CONFIGS[tier]:
+                    if os.environ.get('C10_BLOCKS') and block not in os.environ['C10_BLOCKS'].split(','):
+                        continue  # debugging aid (use together with --only, which switches the vacuity floors off)
                     for ti in VARS_SEEDS if is_vars(block) else STYLE_SEEDS:
                         out = _seed(res, block, ti, tier)
                         if out is not None:
@@ -889,7 +912,15 @@ def _table_row(res, n):
     back = cssproperties._toCSSname(got_dom)
     shape = 'single-letter-word' if any(len(p) == 1 for p in n.split('-')[1:]) else ('vendor-prefix' if n.startswith('-') else 'other')
     if back != n:
-        res.violation('C10.domname', f'_toCSSname(_toDOMname(n))!=n|{shape}', case, n, back)
+        # attribute access goes through this mapping: everything below would fail as a consequence, one finding is enough
+        s0 = css.CSSStyleDeclaration()
+        try:
+            setattr(s0, got_dom, 'inherit')
+            seen = s0.cssText
+        except Exception as e:
+            seen = repr(e)
+        res.violation('C10.domname', f'_toCSSname(_toDOMname(n))!=n|{shape}', case, [n, f'{n}: inherit'], [back, seen])
+        return
     res.sets['dom_names'].add(dom)
     if not isinstance(getattr(css.CSSStyleDeclaration, dom, None), property):
         res.violation('C10.domname', 'no-attribute-for-known-property', case, dom, None)
@@ -929,9 +960,6 @@ def _table_row(res, n):
 
 
 def run(ctx):
-    import os
-    import sys
-
     dbg = (lambda d, new, seen: print(f'level {d}: new={new} seen={seen}', file=sys.stderr, flush=True)) if os.environ.get('VERIF_DEBUG') else None
     res = explore.bfs(ctx, 'expand', max_depth=40, batch=6, on_level=dbg)
     if res.counters.get('frontier_states_left_unexpanded_at_depth_bound'):
